@@ -429,6 +429,11 @@ impl Server {
                     _ => Outcome::NoResponse { panicked },
                 };
             }
+            // the message loop has ended (it returned or died, e.g. while loading the library): nothing will ever answer
+            if self.thread.as_ref().map(|t| t.is_finished()).unwrap_or(true) && t0.elapsed() > Duration::from_millis(200) {
+                self.drain();
+                return Outcome::NoResponse { panicked: true };
+            }
             if t0.elapsed() > watchdog {
                 crate::mon::note_watchdog();
                 return Outcome::Watchdog;
